@@ -5,7 +5,13 @@ package main
 import (
 	"bytes"
 	"context"
+	"crypto/sha256"
+	"encoding/json"
+	"fmt"
+	"os"
 	"os/exec"
+	"path/filepath"
+	"sync/atomic"
 	"strconv"
 	"strings"
 	"sync"
@@ -36,7 +42,94 @@ var solvers = []solverSpec{
 
 func itoa(n int) string { return strconv.Itoa(n) }
 
+// Verdict cache: a definite verdict for byte-identical query text, solver and
+// options is reused. The query itself is always regenerated from the current
+// tree; only the solver call is memoised. Disabled with GOVC_NOCACHE=1.
+var cacheDir = func() string {
+	if os.Getenv("GOVC_NOCACHE") != "" {
+		return ""
+	}
+	d := filepath.Join(verifDir(), "work", "cache")
+	if err := os.MkdirAll(d, 0o755); err != nil {
+		return ""
+	}
+	return d
+}()
+
+var cacheHits, cacheMisses int64
+
+func cacheKey(s solverSpec, path string) string {
+	data, err := os.ReadFile(path)
+	if err != nil {
+		return ""
+	}
+	h := sha256.Sum256(append([]byte(s.name+"|"+strings.Join(s.args(0), " ")+"|"), data...))
+	return fmt.Sprintf("%x", h)
+}
+
+// runAttempt is runSolver for the cheap pre-attempts (light / focused query
+// variants): a "not proved within the time limit" outcome is cached as well,
+// because it only decides whether the next variant is tried.
+func runAttempt(ctx context.Context, s solverSpec, path string, timeoutS int) SolveResult {
+	key := ""
+	if cacheDir != "" {
+		if k := cacheKey(s, path); k != "" {
+			key = k + ".attempt" + strconv.Itoa(timeoutS)
+			if data, err := os.ReadFile(filepath.Join(cacheDir, key)); err == nil {
+				var r SolveResult
+				if json.Unmarshal(data, &r) == nil {
+					atomic.AddInt64(&cacheHits, 1)
+					r.Solver = s.name + "/cached"
+					r.Seconds = 0
+					return r
+				}
+			}
+		}
+	}
+	r := runSolver(ctx, s, path, timeoutS)
+	if key != "" && r.Verdict != "unsat" && r.Verdict != "error" {
+		r2 := r
+		r2.Output = ""
+		if data, err := json.Marshal(r2); err == nil {
+			tmp := filepath.Join(cacheDir, key+".tmp"+strconv.Itoa(os.Getpid()))
+			if os.WriteFile(tmp, data, 0o644) == nil {
+				os.Rename(tmp, filepath.Join(cacheDir, key))
+			}
+		}
+	}
+	return r
+}
+
 func runSolver(ctx context.Context, s solverSpec, path string, timeoutS int) SolveResult {
+	key := ""
+	if cacheDir != "" {
+		key = cacheKey(s, path)
+		if key != "" {
+			if data, err := os.ReadFile(filepath.Join(cacheDir, key)); err == nil {
+				var r SolveResult
+				if json.Unmarshal(data, &r) == nil && (r.Verdict == "unsat" || r.Verdict == "sat") {
+					atomic.AddInt64(&cacheHits, 1)
+					r.Solver = s.name + "/cached"
+					r.Seconds = 0
+					return r
+				}
+			}
+		}
+	}
+	r := runSolverRaw(ctx, s, path, timeoutS)
+	if key != "" && (r.Verdict == "unsat" || r.Verdict == "sat") {
+		atomic.AddInt64(&cacheMisses, 1)
+		if data, err := json.Marshal(r); err == nil {
+			tmp := filepath.Join(cacheDir, key+".tmp"+strconv.Itoa(os.Getpid()))
+			if os.WriteFile(tmp, data, 0o644) == nil {
+				os.Rename(tmp, filepath.Join(cacheDir, key))
+			}
+		}
+	}
+	return r
+}
+
+func runSolverRaw(ctx context.Context, s solverSpec, path string, timeoutS int) SolveResult {
 	start := time.Now()
 	cctx, cancel := context.WithTimeout(ctx, time.Duration(timeoutS+2)*time.Second)
 	defer cancel()
